@@ -348,7 +348,7 @@ class IPPO(MultiAgentRLAlgorithm):
 
         # Check and stack masks
         for homo_id in self.shared_agent_ids:
-            if None in action_masks[homo_id]:
+            if any(mask is None for mask in action_masks[homo_id]):
                 assert all(mask is None for mask in action_masks[homo_id]), (
                     f"If action masks are provided for any agents, they must be provided for all agents. "
                     "Action masks can be defined as an array with the shape of the action space "
@@ -357,7 +357,9 @@ class IPPO(MultiAgentRLAlgorithm):
 
                 action_masks[homo_id] = None
             else:
-                action_masks[homo_id] = torch.Tensor(action_masks[homo_id])
+                action_masks[homo_id] = torch.as_tensor(
+                    np.stack([np.asarray(mask) for mask in action_masks[homo_id]])
+                ).float()
 
         return action_masks
 
